@@ -996,8 +996,14 @@ class HistGen:
         else:
             popts = rng.choice((P_ONLY, P_ONLY, P_ONLY | P_OPAQ, P_ONLY | P_STRICT, P_STORE_ONLY, P_ONLY | P_JSON_NULL, P_STORE_ONLY | P_OPAQ))
             vopts = 0 if rng.random() < 0.95 else V_PRESENT
+        if self.stream != "opaq":
+            popts &= ~P_OPAQ
+        if self.stream != "multierr":
+            vopts &= ~V_MULTI
+        elif validating:
+            vopts |= V_MULTI
         d = self.doc.json_doc(tops) if fmt else self.doc.xml_doc(tops)
-        bad = rng.random() < 0.22
+        bad = rng.random() < (0.22 if self.stream != "multierr" else 0.5)
         if bad:
             d = corrupt(rng, d, fmt)
         self.emit("parse:%s:%s" % ("json" if fmt else "xml", "malformed" if bad else ("invalid-values" if p_bad else "valid")),
@@ -1026,14 +1032,19 @@ class HistGen:
             d = "".join(self.doc.xml(k) for k in kids)
         if rng.random() < 0.2:
             d = corrupt(rng, d, fmt)
-        self.emit("parse:subtree", O("pinp", s, inst_path(par) or "@%d" % rng.randrange(20), fmt,
-                                     rng.choice((P_ONLY, 0, P_ONLY | P_OPAQ, P_STRICT)), rng.choice((0, V_PRESENT)), d.encode("utf-8", "surrogateescape")))
+        popts = rng.choice((P_ONLY, 0, P_ONLY | P_OPAQ, P_STRICT))
+        if self.stream != "opaq":
+            popts &= ~P_OPAQ
+        self.emit("parse:subtree", O("pinp", s, inst_path(par) or "@%d" % rng.randrange(20), fmt, popts, rng.choice((0, V_PRESENT)), d.encode("utf-8", "surrogateescape")))
 
     def g_roundtrip(self):
         rng = self.rng
         s, d = self.slot(live=True), self.slot(live=False)
         fmt = rng.randrange(3)
-        self.emit("roundtrip:%s" % ("xml", "json", "lyb")[fmt], O("rt", s, d, fmt, rng.choice((0, 2, 0x20, 0x10, 4)), rng.choice((P_ONLY, 0, P_STRICT, P_ONLY | P_OPAQ)), rng.choice((0, V_PRESENT))))
+        popts = rng.choice((P_ONLY, 0, P_STRICT, P_ONLY | P_OPAQ))
+        if self.stream != "opaq":
+            popts &= ~P_OPAQ
+        self.emit("roundtrip:%s" % ("xml", "json", "lyb")[fmt], O("rt", s, d, fmt, rng.choice((0, 2, 0x20, 0x10, 4)), popts, rng.choice((0, V_PRESENT))))
         if s in self.known and s != d:
             self.known[d] = self.known[s]
 
@@ -1044,6 +1055,8 @@ class HistGen:
         if top is None:
             return self.g_parse()
         dt = rng.choice((1, 3, 4)) if kind != "notification" else rng.choice((2, 5))
+        if self.stream != "opaq" and dt >= 4:
+            dt = 1 if dt == 4 else 2
         self.tg.fill_op(op, output=(dt == 3), p_bad=0.05)
         s = self.slot(live=False)
         fmt = 0 if dt >= 4 else rng.randrange(2)
@@ -1078,6 +1091,8 @@ class HistGen:
         elif sn.kind in ("anydata", "anyxml"):
             val = rng.choice(("txt", "<x>1</x>", '{"x":1}', "", "<a><b>", '{"lfa:top":"q"}'))
         opts = rng.choice((0, 0, 0, NP_UPDATE, NP_UPDATE, NP_OPAQ, NP_UPDATE | NP_OPAQ, NP_STORE_ONLY, NP_WITH_OPAQ, NP_OUTPUT))
+        if self.stream != "opaq":
+            opts &= ~(NP_OPAQ | NP_WITH_OPAQ)
         if sn.kind in ("anydata", "anyxml") and self.stream != "f60":
             opts &= ~NP_UPDATE          # F60: updating an existing any node keeps the caller's pointer
         if self.stream == "f60" and sn.kind in ("anydata", "anyxml"):
@@ -1107,6 +1122,8 @@ class HistGen:
         rng = self.rng
         s = self.slot(live=True) if rng.random() < 0.8 else self.slot()
         fam = rng.choice(("ni", "nl", "nlv", "nt", "nt", "nt", "ntb", "na", "nad", "no"))
+        if fam == "no" and self.stream != "opaq":
+            fam = "nt"
         kinds = {"ni": ("container", "rpc", "notification", "action"), "nl": ("list",), "nlv": ("list",), "nt": ("leaf", "leaf-list"), "ntb": ("leaf", "leaf-list"),
                  "na": ("anydata", "anyxml"), "nad": ("anydata", "anyxml"), "no": ("leaf", "container")}[fam]
         psel, psn = self._parent_for(s, kinds)
@@ -1148,7 +1165,11 @@ class HistGen:
             self.emit(kd, O("nt", s, psel, mod, name, rng.choice((0, 0, 0, 2, 1)), self.tg.value(sn, 1.0 if bad else 0.0) if not (bad and rng.random() < 0.1) else None))
         elif fam == "ntb":
             v = self.lyb_value(sn, bad)
-            self.emit(kd, O("ntb", s, psel, mod, name, rng.choice((0, 0, 2)), v, rng.random() < 0.15))
+            if v is None:
+                self.emit(kd.replace(":ntb:", ":nt:"), O("nt", s, psel, mod, name, 0, self.tg.value(sn, 1.0 if bad else 0.0)))
+            else:
+                # lyd_new_term + LYD_NEW_VAL_BIN takes the length by strlen: only for values without a zero byte
+                self.emit(kd, O("ntb", s, psel, mod, name, rng.choice((0, 0, 2)), v, rng.random() < 0.15 and b"\x00" not in v and len(v) > 0))
         elif fam == "na":
             v = rng.choice(("plain text", "<x xmlns=\"urn:q\"><y>1</y></x>", '{"x":{"y":[1,2]}}', "", "<a><b></a>", '{"x":', '{"%s:top":"v"}' % self.schema.tops()[0].mod.name, "&bogus;"))
             self.emit(kd, O("na", s, psel, mod, name, rng.randrange(1, 4), rng.random() < 0.6, v))
@@ -1159,10 +1180,13 @@ class HistGen:
                             rng.choice((None, "", "v", "a&b")), rng.choice((None, sn.mod.name, "pfx")), rng.random() < 0.4))
 
     def lyb_value(self, sn, bad):
-        """value in the binary (LYB) value format of lyd_new_term_bin / lyd_change_term_bin"""
+        """value in the binary (LYB) value format of lyd_new_term_bin / lyd_change_term_bin.  The format is trusted by the
+        type plugins (undefined bit positions, embedded NULs are not checked), so "bad" only means a wrong size."""
         rng = self.rng
-        base = self.values.base(sn)
+        t, _ = self.schema.resolve_type(sn.type, sn.mod)
+        base = t.arg
         v = self.tg.value(sn, 0.0)
+        sized = True
         try:
             if base in INT_RANGE:
                 size = {"8": 1, "6": 2, "2": 4, "4": 8}[base[-1]]
@@ -1170,25 +1194,45 @@ class HistGen:
             elif base == "boolean":
                 b = b"\x01" if v == "true" else b"\x00"
             elif base == "binary":
-                b = base64.b64decode(v)
+                b, sized = base64.b64decode(v), False
             elif base == "empty":
                 b = b""
             elif base == "bits":
-                b = bytes([rng.randrange(8)])
+                pos, nxt, bitmap = {}, 0, 0
+                for bst in t.all("bit"):
+                    p = int(bst.arg_of("position", str(nxt)))
+                    pos[bst.arg] = p
+                    nxt = p + 1
+                for name in v.split():
+                    bitmap |= 1 << pos[name]
+                b = bitmap.to_bytes(max(1, (max(pos.values()) // 8) + 1), "little")
+            elif base == "enumeration":
+                val, nxt = {}, 0
+                for est in t.all("enum"):
+                    x = int(est.arg_of("value", str(nxt)))
+                    val[est.arg] = x
+                    nxt = x + 1
+                b = val[v].to_bytes(4, "little", signed=True)
             elif base == "decimal64":
-                b = int(float(v) * 100).to_bytes(8, "little", signed=True)
+                fd = int(t.arg_of("fraction-digits", "2"))
+                b = int(round(float(v) * 10 ** fd)).to_bytes(8, "little", signed=True)
+            elif base in ("string", "identityref", "instance-identifier"):
+                b, sized = v.encode(), False
             else:
-                b = v.encode()
+                return None     # union / leafref: own encodings, not generated
         except Exception:
-            b = v.encode()
+            return None
         if bad:
-            b = rng.choice((b + b"\x00", b[:-1], b"", b * 3 + b"\xff", bytes(rng.randrange(256) for _ in range(rng.randrange(1, 12)))))
+            if sized:
+                b = rng.choice((b + b"\x01", b[:-1], b"", b + b))
+            else:
+                b = rng.choice((b + b"!", b[:-1], b"", b * 3))
         return b
 
     def g_meta(self):
         rng = self.rng
         s = self.slot(live=True)
-        k = rng.randrange(6)
+        k = rng.randrange(6 if self.stream == "opaq" else 5)
         anns = [(m.name, a) for m in self.schema.mods.values() for a in m.annotations]
         if k <= 2:
             if anns and rng.random() < 0.8:
@@ -1227,8 +1271,9 @@ class HistGen:
             val = self.tg.value(sn, 1.0 if bad else 0.0)
         else:
             val = rng.choice(("1", "2", "3", "5", "7", "a", "b", "x", "true", "one", "q", "lfa:id-a", "", "zz", "300", "-1", "hi", "p", "lo", "k1", "lfd:k2", "1.5"))
-        if sn is not None and rng.random() < 0.12:
-            self.emit("change_term_bin:%s" % ("llist-or-key" if f19 else "leaf"), O("ctb", s, target, self.lyb_value(sn, bad), f19))
+        lv = self.lyb_value(sn, bad) if (sn is not None and rng.random() < 0.12) else None
+        if lv is not None:
+            self.emit("change_term_bin:%s" % ("llist-or-key" if f19 else "leaf"), O("ctb", s, target, lv, f19))
         else:
             self.emit("change_term:%s:%s" % ("llist-or-key" if f19 else "leaf", "bad" if bad else "ok"), O("ct", s, target, val, f19))
 
@@ -1297,6 +1342,8 @@ class HistGen:
         s = self.slot(live=True) if rng.random() < 0.9 else self.slot()
         k = rng.randrange(6)
         vopts = rng.choice((V_PRESENT, V_PRESENT, V_PRESENT | V_MULTI, V_PRESENT | V_NOSTATE, V_PRESENT | V_OPER, V_PRESENT | V_NODFLT, V_PRESENT | V_NOTFINAL, 0, V_MULTI))
+        if self.stream != "multierr":
+            vopts &= ~V_MULTI
         if k <= 1:
             self.emit("validate:all", O("va", s, vopts, rng.random() < 0.4))
         elif k == 2:
@@ -1487,7 +1534,9 @@ class HistGen:
         self.diffslot = 0
         nops = nops or rng.choice((4, 8, 12, 16, 20, 24, 32, 40))
         set0 = self.set
-        ctxopts = rng.choice((0, 0, 0, 4, 4, 4, 0x400 | 4, 0x40, 0x200 | 4, 0x02 | 4))
+        ctxopts = rng.choice((0, 0, 0, 4, 4, 4, 0x40, 0x200 | 4, 0x02 | 4))
+        if stream == "lrlink":
+            ctxopts = 0x400 | rng.choice((0, 4))
         if rng.random() < 0.15:
             for _ in range(rng.randrange(1, 4)):
                 self.g_schema(True)
@@ -1496,6 +1545,12 @@ class HistGen:
             fams += ["g_change"] * 25
         if stream == "f60":
             fams += ["g_new_path"] * 25
+        if stream == "opaq":
+            # opaque nodes are kept away from merge and diff (NULL dereferences in lyd_merge_sibling_r / lyds_insert2 with
+            # schema-less nodes: C04/C05 matter, not an ownership question)
+            fams = [f for f in fams if f not in ("g_merge", "g_diff")] + ["g_new_node"] * 6 + ["g_meta"] * 4
+        if stream == "multierr":
+            fams += ["g_parse"] * 30
         # start with something alive
         self.g_parse()
         while len(self.ops) < nops:
@@ -1749,10 +1804,10 @@ def run_life(cx, workers=None):
     s = seed_f21()
     hist.append((s[0], s[1], s[2], ["seed"], "seed"))
     hist += exhaustive_small(gen)
-    n = cx.n(2200, 60000)
+    n = int(os.environ.get("VERIF_LIFE_N", "0")) or cx.n(2200, 60000)
     for i in range(n):
         x = rng.random()
-        stream = "f19" if x < 0.12 else "f60" if x < 0.16 else "main"
+        stream = "f19" if x < 0.12 else "f60" if x < 0.15 else "multierr" if x < 0.18 else "lrlink" if x < 0.20 else "opaq" if x < 0.32 else "main"
         si, co, ops, kinds = gen.history(stream)
         if cx.tier == "thorough" or rng.random() < 0.05:
             co |= FORCE_LSAN
